@@ -61,6 +61,14 @@ def ifStepLine (s : IF) : List String → IF × String
   | ["take", p] => match nat? p with
     | some i => ifRun s (.take i) fun _ => "ok"
     | none => (s, "bad-op")
+  -- the same two steps observed at a quiescent moment (no handler of the peer between its
+  -- release hook and the release): the real `len(inflight)` is then exactly the model's `sem`
+  | ["wantq", p] => match nat? p with
+    | some i => ifRun s (.want i) fun s' => s!"ok {((s'.peers[i]?).map (·.sem)).getD 0}"
+    | none => (s, "bad-op")
+  | ["takeq", p] => match nat? p with
+    | some i => ifRun s (.take i) fun s' => s!"ok {((s'.peers[i]?).map (·.sem)).getD 0}"
+    | none => (s, "bad-op")
   | ["closed", p] => match nat? p with
     | some i => ifRun s (.sawClosed i) fun _ => "ok"
     | none => (s, "bad-op")
